@@ -71,17 +71,29 @@ Theorem C15_operator_spelling :
   (forall o : boolop, spelled (otok o) [32%N] [32%N] (boolop_text o)).
 Proof. exact operator_spelling. Qed.
 
-(* _str_escape: for EVERY string of code points without NUL -- quotes, backslashes, control characters, non-ASCII and
-   lone surrogates (the backslashreplace branch) included -- the text between single quotes, read as a Python string
+(* _str_escape: for EVERY string of code points -- quotes, backslashes, control characters, NUL, non-ASCII and lone
+   surrogates (the backslashreplace branch) included -- the text between single quotes, read as a Python string
    literal (Spec/PyLex.read_sq), is the string.  Uses the escape table regenerated from the source. *)
 Theorem C15_str_escape_roundtrip :
-  forall s : text, forallb (fun c => negb (N.eqb c 0)) s = true -> read_sq (39%N :: str_escape s ++ [39%N]) = Some s.
+  forall s : text, read_sq (39%N :: str_escape s ++ [39%N]) = Some s.
 Proof. exact str_escape_roundtrip. Qed.
 
 Example C15_str_escape_roundtrip_nonvacuous :
-  let s := [105; 116; 39; 115; 92; 10; 9; 233; 55296; 128512]%N in
-  forallb (fun c => negb (N.eqb c 0)) s = true /\
-  str_escape s = [105; 116; 92; 39; 115; 92; 92; 92; 110; 92; 116; 233; 92; 117; 100; 56; 48; 48; 128512]%N.
+  let s := [105; 116; 39; 115; 92; 10; 9; 0; 233; 55296; 128512]%N in
+  str_escape s = [105; 116; 92; 39; 115; 92; 92; 92; 110; 92; 116; 92; 120; 48; 48; 233; 92; 117; 100; 56; 48; 48; 128512]%N.
+Proof. vm_compute. reflexivity. Qed.
+
+(* _bytes_escape: for EVERY byte string, b + quote + escaped + quote read as a Python bytes literal (Spec/PyLex.read_bq)
+   is the byte string -- whichever quote repr() chose. *)
+Theorem C15_bytes_escape_roundtrip :
+  forall b : text, forallb (fun c => N.ltb c 256) b = true ->
+                   read_bq (98%N :: 39%N :: bytes_escape b ++ [39%N]) = Some b.
+Proof. exact bytes_escape_roundtrip. Qed.
+
+Example C15_bytes_escape_roundtrip_nonvacuous :
+  let b := [105; 116; 39; 115; 0; 255; 10; 92]%N in
+  forallb (fun c => N.ltb c 256) b = true /\
+  bytes_escape b = [105; 116; 92; 39; 115; 92; 120; 48; 48; 92; 120; 102; 102; 92; 110; 92; 92]%N.
 Proof. vm_compute. split; reflexivity. Qed.
 
 (* with a lone surrogate present every surrogate is shown as \udXXX and nothing else changes *)
@@ -90,15 +102,17 @@ Theorem C15_str_escape_surrogates :
                    str_escape s = flat_map (fun c => flat_map backslashreplace1 (enc c)) s.
 Proof. exact str_escape_surrogates. Qed.
 
-(* Genuine defects on the unchanged tree (known_findings/C15.json):
-   C15-str-nul: a NUL cannot be written raw in Python source, and _str_escape leaves it raw;
-   C15-bytes-quote: _bytes_escape = repr(b)[2:-1] leaves the quote unescaped when repr chose double quotes. *)
-Theorem C15_str_escape_nul_refuted :
-  exists s : text, read_sq (39%N :: str_escape s ++ [39%N]) <> Some s.
-Proof. exists [0%N]. vm_compute. discriminate. Qed.
+(* Repaired defects (known_findings/C15.json "fixed"), as witnesses over the kept old definitions:
+   e76b12d: a NUL cannot be written raw in Python source, and _str_escape used to leave it raw;
+   69ea9c3: _bytes_escape = repr(b)[2:-1] used to leave the quote unescaped when repr chose double quotes. *)
+Theorem C15_str_escape_nul_old_refuted :
+  exists s : text, read_sq (39%N :: str_escape_old s ++ [39%N]) <> Some s /\ read_sq (39%N :: str_escape s ++ [39%N]) = Some s.
+Proof. exists [0%N]. vm_compute. split; [discriminate|reflexivity]. Qed.
 
-Theorem C15_bytes_quote_refuted :
-  exists b : text, b = [105; 116; 39; 115]%N /\ bytes_escape b = b /\ read_sq (39%N :: bytes_escape b ++ [39%N]) = None.
+Theorem C15_bytes_quote_old_refuted :
+  exists b : text, b = [105; 116; 39; 115]%N /\ bytes_escape_old b = b /\
+                   read_bq (98%N :: 39%N :: bytes_escape_old b ++ [39%N]) = None /\
+                   read_bq (98%N :: 39%N :: bytes_escape b ++ [39%N]) = Some b.
 Proof. exists [105; 116; 39; 115]%N. vm_compute. repeat split. Qed.
 
 (* _output: for every text, tag, state and setting (any linelen, maxlines, charpos -- also beyond linelen --, linebreakok)
@@ -158,3 +172,15 @@ Proof. exact inline_expr_complete. Qed.
 Example C15_inline_complete_nonvacuous :
   simple_expr c15_sample = true /\ c_complete (colorize (Params 0 1 false) (compile PNone c15_sample)) = true.
 Proof. vm_compute. split; reflexivity. Qed.
+
+(* The repaired defect (fix: commit ae14ef1, known_findings/C15.json "fixed"): 1-(2-3).  The right operand keeps its
+   parentheses now; without them the same tokens read back as (1-2)-3. *)
+Definition k_num (c : N) : expr := ELeaf (LConst (KNum [c])).
+Example C15_right_operand_fixed :
+  let e := EBin Sub (k_num 49) (EBin Sub (k_num 50) (k_num 51)) in
+  pp PNone e = [TLeaf (LConst (KNum [49%N])); TOp OMinus; TLP; TLeaf (LConst (KNum [50%N])); TOp OMinus;
+                TLeaf (LConst (KNum [51%N])); TRP] /\
+  read (pp PNone e) = Some e /\
+  read [TLeaf (LConst (KNum [49%N])); TOp OMinus; TLeaf (LConst (KNum [50%N])); TOp OMinus; TLeaf (LConst (KNum [51%N]))]
+  = Some (EBin Sub (EBin Sub (k_num 49) (k_num 50)) (k_num 51)).
+Proof. vm_compute. repeat split. Qed.
